@@ -108,7 +108,9 @@ CLAIMS = {
                 + GEN.format(src="the body of the `while True:` loop of _memory.monitor_rss_process and the initial maximum (file effects open / write / "
                                  "flush / fsync / close / os.replace recorded as tokens; total_rss(), the clock and _BYTES_TO_GIB are inputs; theorems "
                                  "C20_code_writer: iterated over any finite sample sequence its effects on max-rss.txt / max-rss.txt.tmp ARE the model's "
-                                 "writerOps .rename, C20_code_reader: hence C20_reader holds for the code's writer, C20_code_keep; BBProofs/GenEq7.lean)", prop="C20"),
+                                 "writerOps .rename, C20_code_reader: hence C20_reader holds for the code's writer, C20_code_keep; BBProofs/GenEq7.lean) "
+                                 "and the reader _memory.get_peak_memory_gib (file.exists() and the text read are inputs, float(text.strip()) = "
+                                 "PV.floatOf; theorem C20_code_reader_steps: the model reader's four steps in its order with its outcomes; GenEq10.lean)", prop="C20"),
         "note": TB + "PARTIAL: atomicity of rename(2), of a single small write(2) and of open(O_TRUNC) are assumptions about the kernel; the model "
                 "conservatively also allows a partially written temporary file. 'Monitoring on/off does not change clustering output' is "
                 "exercised by the CLI suite (C15), not proved.",
@@ -231,12 +233,15 @@ CLAIMS = {
                 "reported indices are exactly the invalid positions, ascending; C16_batches (batches/ranges are consecutive and cover the "
                 "input); C16_split_merge; C16_shuffle (multiset of rows); C16_fileseq / _rows / _err: indexing a file sequence by a sorted "
                 "index list (repeats, empty, empty files) = indexing the concatenation, otherwise ValueError. Correspondence: real commands "
-                "and real indexer vs the model's part names / sizes / indices / rows; oracle vs the in-process API.",
+                "and real indexer vs the model's part names / sizes / indices / rows; oracle vs the in-process API."
+                + GEN.format(src="parse_num_per_batch, the function nested in cli._fps_from_smiles that sizes the batches and pads the part numbers "
+                                 "(theorems C16_code_num_per_batch: = the model's numPerBatch below 2^53 SMILES - ceil_truediv proves that the code's "
+                                 "float division followed by math.ceil is the exact ceiling there -, C16_code_digits, C16_code_exclusive; BBProofs/GenEq11.lean)", prop="C16"),
         "note": TB + "PARTIAL: fps-info (header parsing, console output) is checked by the suite only (no theorem: it has no logic beyond two "
                 "predicates on shape and dtype). RDKit is a parameter (fp). Interleaving of single writes into shared memory is not "
                 "modelled: each position is owned by one task. KNOWN FINDING (known_findings.json): multi-part --skip-invalid reports "
                 "counts, not indices. Fixed defects: -m with several processes, fps-info on one file, fps-info on non-integer dtype.",
-        "technique": "Lean 4 theorems over executable model + differential correspondence with the real commands",
+        "technique": TGEN + " (real commands)",
     },
     "C19": {
         "text": "C19_analysis_select (reported clusters = longest prefix with <= top clusters of size >= min_size), C19_analysis (sizes = "
